@@ -150,4 +150,69 @@ example : ∃ M ∈ Gen.msgTables.layouts, (M.ty, M.lay.cls) ∈ Gen.msgTables.r
 -- a value outside its width is NOT claimed (and indeed ctypes wraps it)
 example : inWidth ⟨"max_qubits", 64, 8, false⟩ 300 = false := by decide
 
+/-! ### Messages that are modified between serialisations
+
+The property speaks about a message and *its own bytes*: whatever was done to the object
+before (serialised once for the header length, fields assigned, values edited in place), the
+bytes produced now must describe the field values it has now. -/
+
+/-- observing a message (`bytes`, `len`) does not change it -/
+theorem observe_id (m : Msg) : applyUpd m .observe = m := by cases m <;> rfl
+
+/-- `serialize` is a function of the current field values: two histories that end in the
+same field values produce the same bytes (no hidden state, no cache) -/
+theorem serialize_depends_on_current_values (G : Tables) (m₁ m₂ : Msg) (us₁ us₂ : List Upd)
+    (h : applyUpds m₁ us₁ = applyUpds m₂ us₂) :
+    serialize G (applyUpds m₁ us₁) = serialize G (applyUpds m₂ us₂) := by rw [h]
+
+theorem applyUpds_retArr (a : Int) (vs : List (Option Int)) (us : List Upd) :
+    ∃ a' vs', applyUpds (.retArr a vs) us = .retArr a' vs' := by
+  induction us generalizing a vs with
+  | nil => exact ⟨a, vs, rfl⟩
+  | cons u us ih =>
+    simp only [applyUpds, List.foldl_cons]
+    cases u <;> simp only [applyUpd] <;> exact ih _ _
+
+theorem applyUpds_fixed (cls : String) (vals : List Int) (us : List Upd) :
+    ∃ vals', applyUpds (.fixed cls vals) us = .fixed cls vals' := by
+  induction us generalizing vals with
+  | nil => exact ⟨vals, rfl⟩
+  | cons u us ih =>
+    simp only [applyUpds, List.foldl_cons]
+    cases u <;> simp only [applyUpd] <;> exact ih _
+
+/-- **Sequence form, returned arrays.** Start from any array message, apply any sequence of
+observations (`bytes`/`len`), assignments of `address` / `values` and in-place edits of the
+values list (item assignment, append, pop, insert, delete): the bytes produced afterwards
+deserialise to the message as it is *now* — provided the current values are representable. -/
+theorem roundtrip_after_update (a : Int) (vs : List (Option Int)) (us : List Upd)
+    (a' : Int) (vs' : List (Option Int)) (hcur : applyUpds (.retArr a vs) us = .retArr a' vs')
+    (ha : -2147483648 ≤ a' ∧ a' < 2147483648) (hl : vs'.length < 2147483648)
+    (hin : ∀ x, some x ∈ vs' → -2147483648 ≤ x ∧ x < 2147483648) :
+    ∃ bs, serialize Gen.msgTables (applyUpds (.retArr a vs) us) = some bs ∧
+      deserializeReturn Gen.msgTables bs = .ok (.retArr a' vs') := by
+  rw [hcur]; exact array_msg_roundtrip a' vs' ha hl hin
+
+/-- **Sequence form, ctypes messages** (either direction `d`): after any sequence of
+observations and field assignments, if the current leaf values are `ty :: vs'` within
+their widths, the bytes deserialise to exactly these values. -/
+theorem fixed_roundtrip_after_update (d : List (Nat × String))
+    (hd : dispatchOk Gen.msgTables d = true) (M : MLayout) (hM : M ∈ Gen.msgTables.layouts)
+    (hdisp : (M.ty, M.lay.cls) ∈ d) (vals : List Int) (us : List Upd) (vs' : List Int)
+    (hcur : applyUpds (.fixed M.lay.cls vals) us = .fixed M.lay.cls ((M.ty : Int) :: vs'))
+    (hin : allInWidth M.lay.fields ((M.ty : Int) :: vs') = true) :
+    ∃ bs, serialize Gen.msgTables (applyUpds (.fixed M.lay.cls vals) us) = some bs ∧
+      deserializeWith Gen.msgTables d bs = .ok (.fixed M.lay.cls ((M.ty : Int) :: vs')) := by
+  rw [hcur]; exact fixed_msg_roundtrip _ MsgObl.tables_wf d hd M hM hdisp vs' hin
+
+-- the sequence of seeded change C15_1 in the model: three undefined entries, `len(m)`, two
+-- in-place assignments and an append; the bytes describe the current values
+example : applyUpds (.retArr 7 [none, none, none])
+      [Upd.observe, Upd.setItem 0 (some 1), Upd.setItem 2 (some 0), Upd.append none]
+      = .retArr 7 [some 1, none, some 0, none] ∧
+    (serialize Gen.msgTables (applyUpds (.retArr 7 [none, none, none])
+      [Upd.observe, Upd.setItem 0 (some 1), Upd.setItem 2 (some 0), Upd.append none])).map
+        (deserializeReturn Gen.msgTables)
+      = some (.ok (.retArr 7 [some 1, none, some 0, none])) := by decide +kernel
+
 end NQ.C15
